@@ -49,12 +49,40 @@ CHECKS.update({
         'technique': 'Lean 4 theorem over all configurations of the model derivation + per-run kernel-checked translation validation of the real builder output (decide +kernel) + differential correspondence', 'engine': 'config-harness'},
 })
 
+CHECKS.update({
+    'C01': {
+        'text': 'Theorem c01_holds_corrected (clauses c01_newestIsLive, c01_removedIsDelete, c01_onlyRealChanges, c01_changedHasRow, c01_deleteVals, c01_pastKept): for every configuration (CfgOK, TablesNodup, ColsInRange), every boundary state in which the newest version of every live entity equals its live row, and every well-formed event list, the committed transaction satisfies all six clauses of C01.Holds; liveInv_after_commit_corrected / liveInv_after_rollback re-establish the boundary condition, so by induction it holds after every commit of every history (history_all). C01Cex proves the three added hypotheses are necessary. Tied to the code by trace correspondence on whole version tables after every step; C01.Holds is evaluated on the real version tables against the live tables read by SQL.',
+        'note': TRACE_NOTE + ' Changes made behind the ORM\'s back (bulk query.update(), raw SQL, DB-side cascades) are outside the quantifier. Open finding F-ROWSWITCH (delete + re-add of one key in one flush) is listed in known_findings.json.',
+        'technique': TRACE_TECH, 'engine': 'trace-harness'},
+    'C04': {
+        'text': 'Theorems c04_m2o / c04_o2m / c04_m2m: for every content of the version tables satisfying the version primary key, the three temporal join criteria yield exactly, for each related entity, its newest version at or before the owner\'s transaction, never a deleted one; c04_stable_step / c04_stable_run / c04_links_stable_step: what a committed id shows (lastTx, operation, values, link state) never changes in any well-formed continuation, which with C01 identifies the answer with the entities related at the end of that transaction. Tied to relationship_builder.py by (a) directly filled tables and (b) session histories whose relationships are compared with a reconstruction from per-commit SQL snapshots.',
+        'note': TRACE_NOTE + ' Arbitrary custom primaryjoin rewriting (VersionExpressionReflector) and non-versioned targets are covered by correspondence on the standard foreign-key joins only; single-column endpoint keys.',
+        'technique': 'Lean 4 theorems over all version-table contents + trace induction for stability + differential correspondence (tables and histories, reference reconstruction from snapshots)', 'engine': 'rel-harness'},
+    'C06': {
+        'text': 'Theorems c06_db_holds (whatever prefix of whatever flush was executed, after rollback the tables are those of the last commit), c06_as_if_never / c06_as_if_never_run (the state machine is back in exactly its starting state, so every continuation is versioned as if nothing had been attempted), c06_uow_gone, c06_savepoint_released / c06_savepoint_db / c06_savepoint_no_flush; c06_savepoint_counterexample states the open finding F-SP formally. Supported by fault enumeration on the real code: an OperationalError injected at EVERY statement boundary of generated transactions, three ways of rolling back, retry compared with an uninterrupted twin, savepoint placements, and kill runs (os._exit at statement n on a database file).',
+        'note': TRACE_NOTE + ' PARTIAL: atomicity of the DBMS rollback (SQLite journal) and the bytes on disk after process death cannot be exhibited by a theorem; they are exercised by the kill runs. Savepoint rollback after a versioned flush inside the savepoint is the open finding F-SP.',
+        'technique': 'Lean 4 theorems over all event prefixes (rollback restores the committed snapshot and the initial unit-of-work state) + exhaustive statement-boundary fault injection and kill runs on the real code', 'engine': 'fault-harness'},
+    'C11': {
+        'text': 'Theorem c11_holds: for every configuration with distinct version tables per class, every boundary state and every well-formed event list (any number of flushes, any interleaving of entities, inserts / updates / deletes / re-inserts of one key), each entity with tracked events gets in each table of its hierarchy exactly one row stamped with the new transaction whose operation type is the value of the three-state automaton specOp on its events, whose values are those of its last tracked event and whose flags are the column-wise OR; c11_pk_unique, specOp_* transition lemmas, c11_holds_needs_hcfg (the table-distinctness hypothesis is necessary). Tied to operation.py / unit_of_work.py by trace correspondence on version rows, the operations dictionary and the version-object cache after every flush.',
+        'note': TRACE_NOTE, 'technique': TRACE_TECH, 'engine': 'trace-harness'},
+    'C13': {
+        'text': 'Exclusion at every place that enumerates columns: schema (theorems c13_no_column, include_beats_exclude: an excluded column and its flag column never appear; include beats exclude), change detection and transaction creation (c01_onlyRealChanges: every row stamped by a transaction belongs to an entity with a real-change event under the exclusion masks; c02_holds: no record without cause). Checked on the real code with random exclude/include sets over plain and aliased columns and histories mixing excluded and versioned changes.',
+        'note': TRACE_NOTE + ' Excluded relationships and revert (C05) are not part of this check yet.',
+        'technique': TRACE_TECH, 'engine': 'trace-harness'},
+    'C17': {
+        'text': 'Theorem c17_holds: with the transaction-changes plugin, for every well-formed event list the change rows added by a committed transaction are exactly (new id, class of an entity with tracked events), without duplicates however many flushes occurred, and old rows are kept. Tied to plugins/transaction_changes.py by comparing the transaction_changes table with the model at every commit; Transaction.changed_entities / entity_names of every transaction record are compared with the version rows stamped with its id.',
+        'note': TRACE_NOTE + ' changed_entities itself (one query per version class) is covered by the differential comparison, not by a theorem.',
+        'technique': TRACE_TECH, 'engine': 'trace-harness'},
+})
+
 NOT_APPLICABLE = {}
 
 ENGINES = [
     {'name': 'lean-model', 'path': 'lean/', 'serves_properties': sorted(CHECKS), 'kind_free_text': 'Lake project Continuum: model (core Lean), Spec (decidable Holds predicates), Props (theorems), Driver.lean (line protocol)'},
     {'name': 'trace-harness', 'path': 'harness/props/traces.py', 'serves_properties': ['C01', 'C02', 'C03', 'C11', 'C13', 'C17'], 'kind_free_text': 'runs generated session programs on the real code, records the listener-level event trace and database/manager dumps, replays through the Lean model, evaluates Holds on real segments'},
     {'name': 'config-harness', 'path': 'harness/props/c12.py', 'serves_properties': ['C12'], 'kind_free_text': 'samples configurations, serialises the real MetaData, compares with the Lean derivation, generates kernel-checked Lean obligations'},
+    {'name': 'rel-harness', 'path': 'harness/props/c04.py', 'serves_properties': ['C04'], 'kind_free_text': 'fills parent/child/association version tables or runs histories, reads every reflected relationship, compares with the Lean criteria and a snapshot reconstruction'},
+    {'name': 'fault-harness', 'path': 'harness/props/c06.py', 'serves_properties': ['C06'], 'kind_free_text': 'statement-boundary fault injection, rollback variants, savepoint placements, kill runs in a child process'},
     {'name': 'table-harness', 'path': 'harness/props/tables.py', 'serves_properties': ['C08', 'C15', 'C16', 'C19', 'C20'], 'kind_free_text': 'fills real version tables directly, runs the real accessor/tool, compares with the Lean model'},
 ]
 
